@@ -39,6 +39,12 @@ func YAMLDoc(r *rand.Rand, headers []string, cl Classes) string {
 			cl["leading-doc-separator"] = true
 		}
 	}
+	if r.IntN(6) == 0 {
+		// the stream ends with a separator line: an empty last document. Together with
+		// the no-final-newline case below the text ends in a bare `---`
+		s += "\n---"
+		cl["trailing-doc-separator"] = true
+	}
 	switch r.IntN(4) {
 	case 0:
 		cl["no-final-newline"] = true
